@@ -90,6 +90,8 @@ pub trait Shapes {
     fn s_two_slices(&mut self, a: &[u8], b: &[u8]) -> i64;
     fn s_opt_then_slice(&mut self, o: Option<u64>, s: &[u64], t: &str) -> u64;
     fn s_two_mut(&mut self, a: &mut [u8], b: &mut u32) -> usize;
+    /// an input and an output slice in one call (often two parts of one buffer)
+    fn s_copy(&mut self, src: &[u8], dst: &mut [u8]) -> usize;
     /// two converted arguments of the same shape and type: each must arrive in its own position
     fn s_two_opts(&mut self, lo: Option<u64>, hi: Option<u64>) -> u64;
     fn s_two_into(&mut self, a: impl Into<u64>, b: impl Into<u64>) -> u64;
@@ -643,6 +645,13 @@ macro_rules! implementor {
                 for x in a.iter_mut() { *x ^= k; }
                 *b = b.wrapping_add(a.len() as u32 + 1);
                 a.len()
+            }
+            fn s_copy(&mut self, src: &[u8], dst: &mut [u8]) -> usize {
+                self.core.enter("s_copy", d2(fnv(src), fnv(dst)), &[(src.as_ptr() as usize, src.len()), (dst.as_ptr() as usize, dst.len())]);
+                let n = src.len().min(dst.len());
+                dst[..n].copy_from_slice(&src[..n]);
+                self.core.mix(n as u64);
+                src.len() * 100 + dst.len()
             }
             fn s_mut_ref(&mut self, out: &mut u64) -> bool {
                 self.core.enter("s_mut_ref", *out, &[(out as *mut u64 as usize, 1)]);
